@@ -33,6 +33,17 @@ def jhash(obj):
     return hashlib.sha256(json.dumps(obj, sort_keys=True, default=str).encode()).hexdigest()[:16]
 
 
+def _shorten(o, maxlist=24, depth=0):
+    """samples are for a reader: long lists are cut (the head is kept and the length is stated)"""
+    if isinstance(o, dict):
+        return {k: _shorten(v, maxlist, depth + 1) for k, v in o.items()}
+    if isinstance(o, (list, tuple)):
+        if len(o) > maxlist:
+            return [_shorten(v, maxlist, depth + 1) for v in o[:maxlist]] + ["... (%d items in total)" % len(o)]
+        return [_shorten(v, maxlist, depth + 1) for v in o]
+    return o
+
+
 class Ctx:
     def __init__(self, pid, tier, seed):
         self.pid = pid
@@ -187,7 +198,7 @@ class Ctx:
 
     def sample(self, obj, limit=4):
         if len(self.samples) < limit:
-            self.samples.append(obj)
+            self.samples.append(_shorten(obj))
 
     def note(self, text):
         if len(self.notes) < 50:
